@@ -217,7 +217,7 @@ P = {
     "required_classes": _req(),
     "signature": _sig,
     "corrupt": _corrupt,
-    "level_text": "Nest.tla states the nests table (kind derived from the inner name as Nests::read does), the file format as a tokeniser and as a law, and every operation twice: as the code computes it (this_nests filter with its side effect, fn remap, the attribute visitor, remap_class on reference rows; MyRemapper / build_translation, re-keying of members, the inverse table of undo; map_nests with rsplit at the last __, inner_name with the C_<n> rule, member lookup of the enclosing method) and as laws on a result (L1 exactly the listed, present classes satisfying the rule of their kind are renamed to Enclosing'$Inner transitively; L2 every reference row is the input row with class names substituted by the JVMS descriptor grammar, everything that is no reference is unchanged; L3 one InnerClasses row of the JVMS 4.7.6 shape per renamed class, at any position, EnclosingMethod for anonymous and local classes, missing enclosing classes exist afterwards and nothing else appears; L4 apply renames source names and descriptors of the mapping set by the same function whatever the jar, undo(apply(M)) = M on source names and descriptors when the nested names are new; L5 if all entries apply, class names of the nested jar = source class names of the applied mappings; L6 translation keeps every nest with class, enclosing class, enclosing method and inner name in the target namespace). TLC checks operation = law on tables of 1..4 nests (nine kind variants x present / absent x enclosing class present / missing / another nest, chains of depth 1..4, custom and derived inner names, both table orders) over a jar whose classes refer to each other in super class, interface, field and method descriptors, instructions, array classes and existing InnerClasses / EnclosingMethod rows; on mappings naming all / some / none of the classes, with a class lacking a target name and Calamus style targets; on single nests x nine target name shapes (absent, plain, C_<n>, C_<x>, C__D, B__C__D, /__D, no target); on texts of one or two lines from a pool of well- and ill-formed lines. Every case is materialised (classes assembled by the independent assembler, tables as values or as text through Nests::read), run through nest_jar / apply_nests_to_mappings / undo_nests_to_mappings / remap_nests / Nests::read, the result jar re-read with the independent parser; random larger jars (3..9 classes with packages, up to 8 nests, resources) and mapping sets are judged by TLC with the laws on the recorded result.",
+    "level_text": "Nest.tla states the nests table (kind derived from the inner name as Nests::read does), the file format as a tokeniser and as a law, and every operation twice: as the code computes it (this_nests filter with its side effect, fn remap, the attribute visitor, remap_class on reference rows; MyRemapper / build_translation, re-keying of members, the inverse table of undo; map_nests with rsplit at the last __, inner_name with the C_<n> rule, member lookup of the enclosing method) and as laws on a result (L1 exactly the listed, present classes satisfying the rule of their kind are renamed to Enclosing'$Inner transitively; L2 every reference row is the input row with class names substituted by the JVMS descriptor grammar, everything that is no reference is unchanged; L3 one InnerClasses row of the JVMS 4.7.6 shape per renamed class, at any position, EnclosingMethod for anonymous and local classes, missing enclosing classes exist afterwards and nothing else appears; L4 apply renames source names and descriptors of the mapping set by the same function whatever the jar, undo(apply(M)) = M on source names and descriptors when the nested names are new; L5 if all entries apply, class names of the nested jar = source class names of the applied mappings; L6 translation keeps every nest with class, enclosing class, enclosing method and inner name in the target namespace). TLC checks operation = law on tables of 1..4 nests (nine kind variants x present / absent x enclosing class present / missing / another nest, chains of depth 1..4, custom and derived inner names, both table orders) over a jar whose classes refer to each other in super class, interface, field and method descriptors, instructions, array classes and existing InnerClasses / EnclosingMethod rows; on mappings naming all / some / none of the classes, with a class lacking a target name and Calamus style targets; on single nests x nine target name shapes (absent, plain, C_<n>, C_<x>, C__D, B__C__D, /__D, no target); on texts of one or two lines from a pool of well- and ill-formed lines. Every case is materialised (classes assembled by the independent assembler, tables as values or as text through Nests::read), run through nest_jar / apply_nests_to_mappings / undo_nests_to_mappings / remap_nests / Nests::read, the result jar re-read with the independent parser; random larger jars (3..9 classes with packages, up to 8 nests, resources) and mapping sets are judged by TLC with the laws on the recorded result. Tables in which a class that nest_jar creates (an absent enclosing class) is itself listed are judged by an existential law: the result must be the nesting of the jar extended by some admissible set of created classes counted as present (names, references, InnerClasses / EnclosingMethod rows, enclosing classes that must exist); TLC checks that the order dependent routine satisfies it for every order of the table (InvJarAlt).",
     "level_note": "Trusted: TLC, cfkit assembler / parser / reference rows, projection of mapping trees. Left open by the property and accepted either way: position of the new InnerClasses row, content of created enclosing classes beyond their name, creation of the missing enclosing class of a present class whose nest fails its rule (the code creates it), tables in which a listed class absent from the jar is the enclosing class of a present one (the code's answer depends on the order of the table), target names after apply / undo, translation when the target name has a malformed __ split or C_ followed by a non-number (result or refusal). Reference positions the generic class remapper does not handle (Signature, invokedynamic) belong to C07 and are not generated. Access flags outside the ten defined inner-class bits are not generated.",
     "assumptions": ["TLC/SANY/CommunityModules", "cfkit assembler, parser and reference rows", "harness projection (proj_quill.rs)"],
 }
